@@ -155,6 +155,10 @@ func hasLaterStep(shape, letter string) bool {
 // sameKeys is set by runCase for the case being run (cases run one at a time).
 var sameKeys bool
 
+// outKey is the key under which a node publishes its value: always level-qualified (with the same NODE keys on every
+// level the values of an inner and an outer node must still not collide when they are merged).
+func outKey(level int, letter string) string { return fmt.Sprintf("L%d%s", level, letter) }
+
 func nodeKey(level int, letter string) string {
 	if sameKeys {
 		return letter
